@@ -53,6 +53,8 @@ def rule_decoder_tables(ctx, cfg, r):
     for x in M.arm_rows("ReadTableSizes"):
         for e in calls_named(x, "inflate::core::read_bits"):
             a = e[2][1]
+            while a[0] == "cast":       # the table may hold a narrower integer type than read_bits takes
+                a = a[1]
             if a[0] == "pure" and a[1] == "index" and a[2][0][0] == "constarr":
                 widths = list(a[2][0][2])
                 idx = a[2][1]
